@@ -166,13 +166,12 @@ ExtraSrcs2 == { <<Src("a", k, TRUE)>> : k \in {"deep", "clash", "empty"} }
 \* size = -1: the harness draws file sizes 0..9 from its seed; ps/buf = part and buffer size the harness installs
 Cases(srcsets, list, dconfigs) ==
   { Case(s, list, d.dtype, d.dbase, d.dslash, d.mode, -1, 4, 2) : s \in srcsets, d \in dconfigs }
-NoSlash == { d \in DestConfigs : ~d.dslash }
 
-\* quick: every golden configuration; the other layouts, lists and pairs with destinations spelled without slash
+\* quick: every golden configuration, the other layouts without trailing slash, file / directory as a list, two pairs
 TreeCases ==
   IF Level = "quick"
-  THEN Cases(GoldenSrcs, FALSE, DestConfigs) \cup Cases(ExtraSrcs, FALSE, NoSlash)
-       \cup Cases({ <<Src("a", k, FALSE)>> : k \in {"file", "dir"} }, TRUE, NoSlash) \cup Cases(Pairs, TRUE, NoSlash)
+  THEN Cases(GoldenSrcs \cup ExtraSrcs, FALSE, DestConfigs)
+       \cup Cases({ <<Src("a", k, FALSE)>> : k \in {"file", "dir"} }, TRUE, DestConfigs) \cup Cases(Pairs, TRUE, DestConfigs)
   ELSE Cases(GoldenSrcs \cup ExtraSrcs \cup ExtraSrcs2, FALSE, DestConfigs)
        \cup Cases(GoldenSrcs \cup ExtraSrcs \cup ExtraSrcs2, TRUE, DestConfigs)
        \cup Cases(Pairs \cup PairsMore, TRUE, DestConfigs)
@@ -309,9 +308,4 @@ PartsTerminate == <>(pc = "done")
 \* reachability companions (expected to be violated)
 NeverMultiDone == ~(pc = "done" /\ nparts >= 3)
 NeverShortLast == ~(pc = "parts" /\ size % ps # 0)
-
-\* constant-evaluation configurations use this trivial behaviour
-EvalInit == size = 0 /\ ps = 1 /\ buf = 1 /\ pc = "done" /\ nparts = 0 /\ rem = <<>> /\ dpos = <<>> /\ spos = 0
-            /\ dest = [o \in Room |-> -1]
-EvalNext == UNCHANGED pvars
 =============================================================================
